@@ -13,6 +13,7 @@ CONFIG = {
                  "ptt.WriteFile line loop + entropy", "writeHeader/writeHeaderAuthorBoard/writeHeaderAuthor", "addSimpleSignature", "GetWebURL line",
                  "ptt.StripANSIMoveCmd", "cmsys.Trim", "cmsys.AppendRecord (C05 model)", "cache.SetBTotal", "pwcuIncNumPost",
                  "site configuration as run-time variables (HAVE_ANONYMOUS, ALLOW_FREE_TN_ANNOUNCE, USE_POST_ENTROPY, QUERY_ARTICLE_URL, USE_AID_URL) read by checkBoardAnonymous / writeHeaderAuthor / isTnAllowed / WriteFile / DoPostArticle / GetWebURL; which variables each site reads is regenerated (Gen.Post.siteConfig)",
+                 "types.InitConfig time-zone path (config -> postConfig -> setTimeLocation) on zone NAMES; the formatting of dates is an environment parameter of the model, judged by the oracle with its own time.LoadLocation",
                  "header/signature/URL rendering as verbatim byte concatenation (fmt %s of byte slices: no field is ever a format)",
                  "pwcuIncNumPost on (stored counter, caller's copy); sessions = kept user records (ptt.NewPost with a stale record)",
                  "doCrosspost to ALLPOST (index growth, file copy, SetBTotal recount; its title is a parameter)", "bbs.ToArticleID/ArticleID.ToRaw (C13 model)"],
